@@ -1,5 +1,6 @@
 """C05 — an IF/ELIF/ELSE chain runs exactly its first true branch."""
 from .common import *
+from refinterp import *
 FIELDS = ('out', 'cls')
 RULE = 'structured programs rich in IF chains (1-6 arms, nested in branches/loops/functions, statements between arms); distinct texts containing at least one chain with 2+ arms'
 W = dict(emit=5, assign=2, ifchain=7, repeat=2, whil=1, brk=0.5, func=1.2, call=2, ret=0.2, prnt=0.1, exist=0.1, between_p=0.5)
@@ -64,6 +65,32 @@ def generate(g, tier):
         lines.append('STRING end'); exp.append('STRING end')
         cases.append(dict(op='compile_file', file='proj/main.txt', files={'proj/main.txt': '\n'.join(pre + lines), 'proj/lib.txt': lib},
                           meta=dict(family='between-' + between_kind, exp=['ok', exp, [], {}])))
+    # recursion: every live call of a function decides its own chains — a call made from a taken branch, between two arms, or
+    # after the chain, whose own last chain takes a branch or none; functions called between arms that RETURN a value.
+    # (Nothing reads the parameter after the inner call returns: a parameter that shadows a visible name of the same name
+    # overwrites it on exit — the quirk recorded in DESIGN.md §4 — so the callers' `n` is not what this family is about.)
+    for _ in range(count(tier, 120, 1200)):
+        n = Var('n')
+        depth = r.randint(1, 3)
+        rec = Call('walk', [Bin('-', n, Lit(1))])
+        guarded = Repeat(Bin('>', n, Lit(0)), None, [rec])         # runs the call iff n > 0, without opening a chain
+        where = r.choice(['branch', 'between', 'after', 'else'])
+        # `gflag` is set by every call after its chain: a later arm that tests it is false in the innermost call (which so takes no
+        # branch) and true in every outer call once the inner one has returned — where it must still be skipped
+        arms = [(Bin('>', n, Lit(0)), [Emit('down', n)] + ([rec] if where == 'branch' else [])),
+                (r.choice([Lit(True), Lit(False), Bin('==', Var('gflag'), Lit(1))]), [Emit('second')]),
+                (r.choice([Lit(True), Lit(False), Bin('==', Var('gflag'), Lit(1))]), [Emit('third')])][:r.randint(1, 3)]
+        between = [[] for _a in arms]
+        if where == 'between': between[0] = [guarded]
+        els = ([Emit('else')] + ([guarded] if where == 'else' else [])) if g.chance(0.7) else None
+        if els is None and where == 'else': where = 'after'
+        if els is None: between[-1] = []
+        body = [IfChain(arms, els, between)] + ([guarded] if where == 'after' else []) + [Assign('gflag', Lit(1)), Emit('up')]
+        helper = FuncDef('pick', [], [IfChain([(Lit(True), [Return('RETURN', Lit(5))])], None, [[]])])
+        outer = IfChain([(Lit(r.choice([True, False])), [Emit('o1')]), (Lit(True), [Emit('o2')])], [Emit('o3')], [[Call('pick', [])], []])
+        prog = [Assign('gflag', Lit(0)), FuncDef('walk', ['n'], body), helper, Call('walk', [Lit(depth)]), outer, Emit('end')]
+        text, rd = render_ast(prog, g.units(), '', g.r if g.chance(0.3) else None)
+        cases.append(dict(op='compile', src=dict(text=text), meta=dict(family='recursion', exp=list(expect_of(prog, rd)[:4]))))
     return cases
 
 
